@@ -7,6 +7,7 @@ package server
 
 import (
 	"fmt"
+	"net"
 	"testing"
 
 	"verif.local/engine/explore"
@@ -112,17 +113,116 @@ func c15Census(e *vsched.Exec, conns [][]string) {
 	}
 }
 
+// c15IDAuth decides as the rig's authenticator does but returns the user id spelled as the scenario
+// says. The id is whatever the auth backend answers: the command and HTTP backends may legally
+// answer with the empty string, and the census clauses hold for that user as for any other.
+// Dimension "user-id" added after the independently seeded change C15-10 (the disconnect was
+// reported only for a non-empty id: user "" stayed listed online after every disconnect).
+type c15IDAuth struct {
+	inner Authenticator
+	id    string
+}
+
+func (a c15IDAuth) Authenticate(addr net.Addr, auth string, tx uint64) (bool, string) {
+	ok, _ := a.inner.Authenticate(addr, auth, tx)
+	return ok, a.id
+}
+
+// c15CensusIDs is the alphabet of user-id spellings: an ordinary one, the empty string, a blank,
+// and one that reads like a number (a false-looking value).
+var c15CensusIDs = []string{"user:good", "", " ", "0"}
+
+// c15CensusHistory: connect, disconnect, reconnect, disconnect - sequentially, for a user whose id is
+// spelled id - with the online count of that user read after each step: "the online listing shows
+// for each user the number of currently connected authenticated connections, not stale after a
+// disconnect". lost: the first connection ends by a lost path instead of a clean close.
+// Added after the independently seeded change C15-10 (see c15IDAuth).
+func c15CensusHistory(e *vsched.Exec, id string, lost bool) {
+	r := newRig(e, rigOpts{Traffic: true, DisableUDP: true, Mutate: func(c *Config) {
+		c.Authenticator = c15IDAuth{inner: c.Authenticator, id: id}
+	}})
+	if r.srv == nil {
+		return
+	}
+	read := func(step string, want int) {
+		e.WaitIdle()
+		if got := r.Online[id]; got != want {
+			e.Fail("C15 census: online count of user %q is %d after %s, %d of its authenticated connections are connected (stale or wrong listing)", id, got, step, want)
+		}
+		for u, n := range r.Online {
+			if n < 0 {
+				e.Fail("C15 census: online count of user %q went negative (%d) after %s", u, n, step)
+			}
+			if u != id && n != 0 {
+				e.Fail("C15 census: user %q listed online (%d) after %s, only user %q ever authenticated", u, n, step, id)
+			}
+		}
+	}
+	var cls []*rigClient
+	for i := 0; i < 2; i++ {
+		cl := r.dial(string(rune('A' + i)))
+		cls = append(cls, cl)
+		if resp, err := cl.auth("good", 0); err != nil || resp.Status != 233 {
+			e.Fail("auth: %v %v", resp, err)
+			return
+		}
+		read(fmt.Sprintf("connect #%d", i+1), 1)
+		if lost && i == 0 {
+			e.Point("env", nil, "kill")
+			cl.Conn.Kill()
+		} else {
+			cl.close()
+		}
+		read(fmt.Sprintf("disconnect #%d", i+1), 0)
+	}
+	// the two notifications of a connection carry the same id, and so does the event logger's pair
+	ups, downs, connects, disconnects := 0, 0, 0, 0
+	for _, ev := range r.Events {
+		switch {
+		case ev.Kind == "online" && ev.A == id && ev.OK:
+			ups++
+		case ev.Kind == "online" && ev.A == id && !ev.OK:
+			downs++
+		case ev.Kind == "connect" && ev.A == id:
+			connects++
+		case ev.Kind == "disconnect" && ev.A == id:
+			disconnects++
+		}
+	}
+	if ups != 2 || downs != 2 {
+		e.Fail("C15 census: %d online and %d offline notifications for user %q, 2 connections authenticated and disconnected", ups, downs, id)
+	}
+	e.Logf("user-id=%q lost=%v connects=%d disconnects=%d %s", id, lost, connects, disconnects, r.eventsString())
+	for _, cl := range cls {
+		cl.close()
+	}
+	r.shutdown(true)
+	if got := r.Online[id]; got != 0 {
+		e.Fail("C15 census: online count %d of user %q after every connection ended (stale listing)", got, id)
+	}
+}
+
 func c15CensusScenarios() []*explore.Scenario {
 	mk := func(name string, conns [][]string, q, t explore.Bounds) *explore.Scenario {
 		return &explore.Scenario{Name: name, Quick: q, Thorough: t, Body: func(e *vsched.Exec) { c15Census(e, conns) }}
 	}
-	return []*explore.Scenario{
+	scs := []*explore.Scenario{
 		mk("double-auth-one-conn", [][]string{{"authok", "authok", "close"}}, explore.Bounds{P: 2}, explore.Bounds{P: 3}),
 		mk("auth-and-rejected", [][]string{{"authok", "authbad", "close"}}, explore.Bounds{P: 2}, explore.Bounds{P: 3}),
 		mk("two-conns-one-user", [][]string{{"authok", "close"}, {"authok"}}, explore.Bounds{P: 2}, explore.Bounds{P: 3}),
 		mk("connection-lost", [][]string{{"authok", "kill"}, {"authok", "close"}}, explore.Bounds{P: 2}, explore.Bounds{P: 3}),
 		mk("unauthenticated-disconnect", [][]string{{"authbad", "close"}, {"authok", "close"}}, explore.Bounds{P: 2}, explore.Bounds{P: 3}),
 	}
+	// the spelling of the user id x how the first connection ends, over the sequential history
+	// connect, disconnect, reconnect, disconnect (added after the seeded change C15-10)
+	for _, id := range c15CensusIDs {
+		for _, lost := range []bool{false, true} {
+			scs = append(scs, &explore.Scenario{Name: fmt.Sprintf("reconnect-history/user-id=%q/first-connection-lost=%v", id, lost),
+				Quick: explore.Bounds{P: 1}, Thorough: explore.Bounds{P: 2},
+				Body: func(e *vsched.Exec) { c15CensusHistory(e, id, lost) }})
+		}
+	}
+	return scs
 }
 
 func TestVerifC15Census(t *testing.T) { explore.Main(t, "C15", c15CensusScenarios()) }
